@@ -17,7 +17,7 @@ BOUNDS = {
     "thorough": {"lists": "<=3 events on 0..6 full product; 4 events on 0..5 against <=2 events both ways; units 1 s and 1 ms"},
 }
 RULE = (
-    "full product of the two list spaces; non-trivial = pairs where an event of one list overlaps >=2 events of the other, or the lists share an endpoint, or a zero-length event is present"
+    "full product of the two list spaces; non-trivial = pairs where an event of one list overlaps >=2 events of the other, or a zero-length list-one event sits at or inside a list-two event"
 )
 ASSUMPTIONS = [
     "time-sorted, internally non-overlapping = sorted by start with every consecutive gap >= 0 (zero-length events may repeat or touch)",
@@ -101,10 +101,9 @@ def check(emb, a, b):
 
 
 def _nt(a, b):
-    ea = {x for s, d in a for x in (s, s + d)}
-    eb = {x for s, d in b for x in (s, s + d)}
-    if ea & eb or any(d == 0 for _, d in a + b):
-        return True
+    for s, d in a:
+        if d == 0 and any(t <= s < t + f for t, f in b):
+            return True  # zero-length list-one event at/inside a list-two event
     for x, y in ((a, b), (b, a)):
         for s, d in x:
             if sum(1 for t, f in y if min(s + d, t + f) - max(s, t) > 0) >= 2:
